@@ -1807,6 +1807,95 @@ impl Interp {
         Ok(unit(blk(async move { f.set_qos(QosKind::Specific(q)).await })?))
     }
 
+    // ---- BEGIN ext w2b (C17): `ignore <participant> <other participant | #creation index>` and
+    // `spdp-forge <source participant index> <to participant> [id=<n>] [domain=<d>|none] [lease=<ns>]`:
+    // a copy of the most recent HELD SPDP announcement of the source participant (get one with `hold DATA from=<index> times=1`
+    // before creating the source on another domain) is patched — GUID prefix instance id (RTPS header and PID_PARTICIPANT_GUID),
+    // PID_DOMAIN_ID (`none` = parameter made unrecognisable), PID_PARTICIPANT_LEASE_DURATION — and delivered to the
+    // metatraffic unicast port of <to>, bypassing the fault rules.
+    fn op_ignore_w2b(&mut self, name: &str, other: &str) -> Res {
+        let (p, _) = self.participant(name)?;
+        let h = if let Some(i) = other.strip_prefix('#') {
+            let i: u32 = i.parse().map_err(|_| "bad index".to_string())?;
+            let b = i.to_le_bytes();
+            InstanceHandle::new([0xb1, 0xb2, 0xb3, 0xb4, 0xa1, 0xa2, 0xa3, 0xa4, b[0], b[1], b[2], b[3], 0, 0, 1, 0xc1])
+        } else {
+            self.participant(other)?.0.get_instance_handle()
+        };
+        Ok(unit(blk(async move { p.ignore_participant(h).await })?))
+    }
+    fn op_spdp_forge_w2b(&mut self, toks: &[&str]) -> Res {
+        let (plain, kv) = split_kv(toks);
+        let [src, to] = plain[..] else { return Err("usage: spdp-forge <source index> <to> [id=] [domain=] [lease=]".into()) };
+        let src: usize = src.parse().map_err(|_| "bad source index".to_string())?;
+        let (_, ti) = self.participant(to)?;
+        let mut buf = sim::with(|w| w.held.iter().rev().find(|d| d.from == src && d.buf.len() > 48 && d.buf[20] == 0x09 && d.buf[32] == 0x15).map(|d| d.buf.clone()))
+            .ok_or("no held SPDP announcement of that participant")?;
+        // RTPS header (20) + INFO_TS (12) + DATA header (4) + extraFlags/octetsToInlineQos (4) + ids and sn (16) + encapsulation (4)
+        // RTPS header (20) + INFO_TS (12) + DATA header (4) + extraFlags/octetsToInlineQos (4) + ids and sn (16),
+        // then the inline QoS parameter list (flag Q; holds PID_KEY_HASH), then encapsulation (4) + the parameter list
+        let scan = |buf: &[u8], mut o: usize| -> (Vec<(u16, usize, usize)>, usize) {
+            let mut params = vec![];
+            while o + 4 <= buf.len() {
+                let pid = u16::from_le_bytes([buf[o], buf[o + 1]]);
+                let len = u16::from_le_bytes([buf[o + 2], buf[o + 3]]) as usize;
+                o += 4;
+                if pid == 1 {
+                    break;
+                }
+                params.push((pid, o - 4, len));
+                o += len;
+            }
+            (params, o)
+        };
+        let mut o = 20 + 12 + 4 + 4 + 16;
+        let mut inline: Vec<(u16, usize, usize)> = vec![];
+        if buf[33] & 0x02 != 0 {
+            (inline, o) = scan(&buf, o);
+        }
+        let (params, _) = scan(&buf, o + 4);
+        let at = |pid: u16| params.iter().find(|x| x.0 == pid).map(|x| (x.1, x.2));
+        for (k, v) in kv {
+            match k {
+                "id" => {
+                    let n: u32 = v.parse().map_err(|_| "bad id".to_string())?;
+                    buf[16..20].copy_from_slice(&n.to_le_bytes());
+                    let (o, _) = at(0x0050).ok_or("no PID_PARTICIPANT_GUID")?;
+                    buf[o + 4 + 8..o + 4 + 12].copy_from_slice(&n.to_le_bytes());
+                    if let Some(x) = inline.iter().find(|x| x.0 == 0x0070) {
+                        buf[x.1 + 4 + 8..x.1 + 4 + 12].copy_from_slice(&n.to_le_bytes());
+                    }
+                }
+                "domain" => {
+                    let (o, _) = at(0x000f).ok_or("no PID_DOMAIN_ID")?;
+                    if v == "none" {
+                        buf[o..o + 2].copy_from_slice(&0x3f0fu16.to_le_bytes());
+                    } else {
+                        let d: u32 = v.parse().map_err(|_| "bad domain".to_string())?;
+                        buf[o + 4..o + 8].copy_from_slice(&d.to_le_bytes());
+                    }
+                }
+                "lease" => {
+                    let ns: u64 = v.parse().map_err(|_| "bad lease".to_string())?;
+                    let (o, len) = at(0x0002).ok_or("no PID_PARTICIPANT_LEASE_DURATION")?;
+                    if len != 8 {
+                        return Err("unexpected lease parameter length".into());
+                    }
+                    buf[o + 4..o + 8].copy_from_slice(&((ns / 1_000_000_000) as i32).to_le_bytes());
+                    buf[o + 8..o + 12].copy_from_slice(&((ns % 1_000_000_000) as u32).to_le_bytes());
+                }
+                _ => return Err(format!("unknown spdp-forge key {k}").into()),
+            }
+        }
+        let id = sim::with(|w| {
+            let (m, _) = w.ports_of(ti).unwrap_or((0, 0));
+            w.inject(src, buf, &[m])
+        });
+        sim::settle().map_err(Fail::Stop)?;
+        Ok(format!("ok #{id}"))
+    }
+    // ---- END ext w2b
+
     // ---------------------------------------------------------------- dispatcher
 
     fn exec(&mut self, toks: &[&str]) -> Res {
@@ -1815,6 +1904,8 @@ impl Interp {
             return Ok("ok".into());
         }
         match (op, args) {
+            ("ignore", [n, o]) => self.op_ignore_w2b(n, o), // ext w2b
+            ("spdp-forge", a) => self.op_spdp_forge_w2b(a), // ext w2b
             ("config", a) => self.op_config(a),
             ("factory-qos", a) => self.op_factory_qos(a),
             ("participant", a) => self.op_participant(a),
